@@ -34,7 +34,7 @@ def validate(trace_path, rc, workdir, no_resize=None, timeout=3600, kind="manage
             GetModes=rc.get("modes", ["nb", "bl"]), CreateTO=rc.get("ctos", ["none"]), RecycleTO=rc.get("rtos", ["none"]),
             HasRuntime=bool(c.get("has_runtime", True)), ResizeTargets=rc.get("resize_targets", []),
             AllowClose=True, AllowRetain=True, AllowTake=True, AllowDropPool=True, AllowFail=True, AllowSuspend=True,
-            AllowCancel=True, AllowPanic=True, ThreadLevel=True, HoldAndWait=True, UnwindDrops=False)
+            AllowCancel=True, AllowPanic=True, ThreadLevel=True, HoldAndWait=True, UnwindDrops=bool(c.get("unwind_drops", False)))
         invs = list(INVS)
         if not rc.get("resize_targets") and not rc.get("allow_close"):
             invs += ["Inv_C01", "Inv_C11noshrink"]
